@@ -213,6 +213,11 @@ func ruleRender(r *Run) {
 			bad = true
 			ow.Fail(r.pos(fn.Pos()), "a collection loop can be left early")
 		}
+		// every stream's values are visited: no way round the inner loop within one outer iteration
+		if outer.Blocks[inner.Header] && !mustPassThrough(outer.Body, outer.Header, inner.Header) {
+			bad = true
+			ow.Fail(r.pos(termPos(outer.Body)), "an iteration over the streams can go on to the next stream without visiting this stream's values: its entries are never printed")
+		}
 		n := 0
 		for b := range inner.Blocks {
 			for _, in := range b.Instrs {
